@@ -25,6 +25,7 @@ func checkC16(r *core.Run) {
 	r.Rule("T-count: Append*: id := GetCount(); record stored under key(id) with Id := id; SetCount(id + 1); return id")
 	r.Rule("G-inflight: UpdateMetaStatusAndCommit writes <= metadata.Status == MetaComplete; in Store the call <= lastOrder.Status == OrderCompleted with lastOrder = GetOrder(meta.OrderId)")
 	r.Rule("T-forcepush: the shrinking reslice of Metadata.Commits is never inside a loop (a force-push replaces only the latest entry)")
+	r.Rule("T-base(latest): in Store the call is dominated by a test relating the request's base commit to meta.Commit, the model's latest version (equality or containment) — a membership test in the list of all committed versions accepts stale bases")
 	r.Rule("T-base: in Store the call is dominated by an EQUALITY between meta.Commit and the base commit taken from the request (containment admits empty or partial ids)")
 	r.Assume(aDeps)
 	r.Assume(aCG)
@@ -127,6 +128,9 @@ func checkC16(r *core.Run) {
 	// T-base
 	evalGuard(r, "T-base", "sao/keeper.msgServer.Store", effSel{Calls: []string{"model/keeper.Keeper.UpdateMetaStatusAndCommit"}}, []clause{
 		cl("base-commit-equals-latest-commit", guard.Eq(meta+".Commit", "*CommitId*")),
+		// weaker clause that the tree satisfies: the base named by the request is at least tested against the
+		// model's LATEST commit (meta.Commit), not against some other committed version
+		cl("base-commit-tested-against-the-latest-commit", guard.Eq(meta+".Commit", "*CommitId*"), guard.True("strings.Contains("+meta+".Commit,*CommitId*)")),
 	}, 1)
 }
 
@@ -282,6 +286,7 @@ func checkC08(r *core.Run) {
 	if fn := r.Func("T-claim", "node/keeper.msgServer.ClaimReward"); fn != nil {
 		res := r.Resolver(fn)
 		okRem := false
+		var remStore *ssa.Store
 		for _, b := range fn.Blocks {
 			for _, ins := range b.Instrs {
 				if st, ok := ins.(*ssa.Store); ok {
@@ -289,9 +294,41 @@ func checkC08(r *core.Run) {
 						vt := normT(res.Of(st.Val).String())
 						if strings.HasPrefix(vt, "sdk.DecCoin.TruncateDecimal(") && strings.HasSuffix(vt, ".Reward)#1") {
 							okRem = true
+							remStore = st
 						}
 					}
 				}
+			}
+		}
+		if remStore != nil {
+			// the reduced reward is written back on every success path (whatever is paid out or written off against debt)
+			key := core.Key("T-claim", "node/keeper.msgServer.ClaimReward", "remainder persisted on every success path")
+			setB := map[*ssa.BasicBlock]bool{}
+			sameBlockAfter := false
+			for _, c := range callsIn(r, fn, "node/keeper.Keeper.SetPledge") {
+				if c.Block() == remStore.Block() {
+					after := false
+					for _, ins := range c.Block().Instrs {
+						if ins == ssa.Instruction(remStore) {
+							after = true
+						}
+						if ins == c.(ssa.Instruction) && after {
+							sameBlockAfter = true
+						}
+					}
+					continue
+				}
+				setB[c.Block()] = true
+			}
+			var bad []*ssa.BasicBlock
+			if !sameBlockAfter {
+				succ := successBlocks(r, fn)
+				bad = forwardAvoid(remStore.Block(), setB, nil, func(b *ssa.BasicBlock) bool { return succ[b] })
+			}
+			if bad == nil {
+				r.Discharge("T-claim", key, r.P.Pos(remStore.Pos()), "every success return after Pledge.Reward := remainder passes SetPledge")
+			} else {
+				r.Violate("T-claim", key, r.P.Pos(remStore.Pos()), "ClaimReward can succeed without writing the reduced reward back (SetPledge is skipped on some path, e.g. when the whole-coin part was used up against the provider's collateral debt): the same accrued reward can then be claimed, or written off against debt, again", pathDesc(r, bad))
 			}
 		}
 		key := core.Key("T-claim", "node/keeper.msgServer.ClaimReward", "remainder persisted")
